@@ -15,9 +15,12 @@ import (
 	"net/url"
 	"sync"
 	"testing/iotest"
+	"time"
 
 	"github.com/ipfs/go-cid"
 	"github.com/ipni/go-libipni/announce/httpsender"
+	"github.com/ipni/go-libipni/announce/p2psender"
+	"github.com/libp2p/go-libp2p/core/host"
 	"github.com/ipni/go-libipni/announce/message"
 	"github.com/multiformats/go-multiaddr"
 	"github.com/multiformats/go-multihash"
@@ -313,7 +316,97 @@ func c10RoundTrip(c *vf.Ctx) {
 	}
 }
 
+// c10PubsubSender: what the pubsub sender publishes is what a subscriber of the topic decodes, message by message, also
+// when several messages are sent before the first one is read.
+func c10PubsubSender(c *vf.Ctx) {
+	const sub = "pubsub-sender"
+	if !c.Active(sub) {
+		return
+	}
+	n := c.N(16, 300)
+	for i := 0; i < n; i++ {
+		if !c.Mine(sub, i) {
+			continue
+		}
+		r := c.Rand(sub, i)
+		c.Cur(sub, i, "")
+		h, err := newHost()
+		if err != nil {
+			c.Inconclusive(sub, i, "host-create", err.Error(), nil)
+			continue
+		}
+		topics, cancelPS, err := meshTopics([]host.Host{h}, fmt.Sprintf("/verif/c10/%d/%d", c.Seed, i))
+		if err != nil {
+			h.Close()
+			c.Inconclusive(sub, i, "topic-create", err.Error(), nil)
+			continue
+		}
+		subscr, err := topics[0].Subscribe()
+		var extra []byte
+		if r.Intn(3) == 0 {
+			extra = rbytes(r, 1+r.Intn(30))
+		}
+		var opts []p2psender.Option
+		opts = append(opts, p2psender.WithTopic(topics[0]))
+		if extra != nil {
+			opts = append(opts, p2psender.WithExtraData(extra))
+		}
+		snd, err2 := p2psender.New(nil, "", opts...)
+		if err != nil || err2 != nil {
+			cancelPS()
+			h.Close()
+			c.Fail(sub, i, "sender-new", fmt.Sprint(err, err2), nil)
+			continue
+		}
+		burst := 2 + r.Intn(5)
+		var sent []message.Message
+		for k := 0; k < burst; k++ {
+			m, _ := c10GenMsg(r, true)
+			if err := snd.Send(context.Background(), m); err != nil {
+				continue // (beyond the encoder's caps)
+			}
+			if extra != nil {
+				m.ExtraData = extra
+			}
+			sent = append(sent, m)
+		}
+		wit := func() any {
+			var l []any
+			for k := range sent {
+				l = append(l, msgWitness(&sent[k], nil))
+			}
+			return map[string]any{"sent_before_the_first_was_read": l, "sender_extra_hex": hex.EncodeToString(extra)}
+		}
+		for k := range sent {
+			ctx, cancel := context.WithTimeout(context.Background(), 20*time.Second)
+			pm, err := subscr.Next(ctx)
+			cancel()
+			if err != nil {
+				c.Fail(sub, i, "published-message-not-received", fmt.Sprintf("message %d of %d: %v", k, len(sent), err), wit())
+				break
+			}
+			var d message.Message
+			if err := d.UnmarshalCBOR(bytes.NewReader(pm.Data)); err != nil {
+				c.Fail(sub, i, "wire-decode-error:pubsub", fmt.Sprintf("message %d of %d: %v", k, len(sent), err), wit())
+				break
+			}
+			if df := msgDiff(&sent[k], &d); df != "" {
+				c.Fail(sub, i, "wire-message-differs:pubsub:"+df, fmt.Sprintf("message %d of %d sent back to back", k, len(sent)), wit())
+				break
+			}
+			c.Inc("pubsub_messages_read_back")
+		}
+		snd.Close()
+		subscr.Cancel()
+		cancelPS()
+		h.Close()
+		c.Eval(len(sent))
+		c.Distinct(sub, fmt.Sprint(burst, extra != nil))
+	}
+}
+
 func c10Senders(c *vf.Ctx) {
+	c10PubsubSender(c)
 	const sub = "http-sender"
 	if !c.Active(sub) {
 		return
